@@ -156,6 +156,8 @@ type frame struct {
 	top    bool
 	triggers *[]*Term
 	bounds map[string]ival
+	ranges *rangeEnv
+	symc   map[string]*Val
 }
 
 type deferred struct {
@@ -914,9 +916,9 @@ func (f *frame) setVal(v ssa.Value, t *Term) {
 		_, isConv := v.(*ssa.Convert)
 		if isUnsigned(v.Type()) || !(isBin || isUn || isConv) {
 			if u, ok := v.(*ssa.UnOp); !ok || u.Op == token.MUL {
-				f.e.noteRange(d, v.Type())
+				f.noteRange(d, v.Type())
 			} else if isUnsigned(v.Type()) {
-				f.e.noteRange(d, v.Type())
+				f.noteRange(d, v.Type())
 			}
 		}
 	}
@@ -1064,7 +1066,7 @@ func (f *frame) enterLoop(h *ssa.BasicBlock, li *loopInfo, cs []contrib) error {
 		hv[phi] = &Val{T: c, Typ: phi.Type()}
 		f.vals[phi] = hv[phi]
 		f.assume(f.e.rangeFact(c, phi.Type()))
-		f.e.noteRange(c, phi.Type())
+		f.noteRange(c, phi.Type())
 	}
 	keys, all, err := f.loopModifies(li)
 	if err != nil {
